@@ -23,10 +23,17 @@ def _validate_and_collect(ck, prop, source, trace, scn, work, ev, violations, kn
 
 def _proto_drift(ck, prop, source, trace, work, ev):
     """probe traces against the Impl reading of the protocol at hook grain (ProtoSp.tla); deviations are DRIFT only"""
-    if os.path.getsize(trace) > 400_000_000: return
-    rc, out = ck.tlc(os.path.join(ck.SPEC, 'TraceProto.tla'), os.path.join(ck.SPEC, 'TraceProto.cfg'), work, workers=1, env={'TRACE': trace}, timeout=1500, xmx='6g', dfs=True)
-    if 'CONSUMED' not in out:
-        ck.log(out[-1500:]); raise ck.ToolError('TraceProto did not consume %s' % trace)
+    from concurrent.futures import ThreadPoolExecutor
+    parts = ck.split_trace(trace, 8, work)
+    def one(pth):
+        rc, o = ck.tlc(os.path.join(ck.SPEC, 'TraceProto.tla'), os.path.join(ck.SPEC, 'TraceProto.cfg'), work, workers=1, env={'TRACE': pth}, timeout=1500, xmx='6g', dfs=True)
+        if 'CONSUMED' not in o:
+            ck.log(o[-1500:]); raise ck.ToolError('TraceProto did not consume %s' % pth)
+        return o
+    with ThreadPoolExecutor(max_workers=8) as ex:
+        out = '\n'.join(ex.map(one, parts))
+    for pth in parts:
+        if pth != trace: os.remove(pth)
     devs = re.findall(r'<<\s*"DEV",\s*(\d+),\s*\{(.*?)\}\s*>>', out, re.S)
     clauses = sorted(set(re.findall(r'<<"(\w+)", "(\w+)">>', ' '.join(d[1] for d in devs))))
     pd = ev.setdefault('extra_cov', {}).setdefault('protocol_conformance', {'traces': 0, 'runs_with_deviation': 0, 'clauses': []})
